@@ -38,6 +38,13 @@ class Impl:
 
     def mk_operand(self, kind, lv):
         operand, RN = self.operand, self.encoding.RegisterName
+        w = getattr(self, "int_wrapper", None)
+        if w is not None:   # values handed over as integer-like objects (numpy integers, __index__ classes)
+            lv = [lv[0] if kind in ("KReg",) else w(lv[0])] + [w(x) for x in lv[1:]]
+            if kind in ("KEntry", "KSlice"):
+                lv[1] = int(lv[1])
+                if kind == "KSlice":
+                    lv[3] = int(lv[3])
         if kind == "KReg":
             return operand.Register(RN(lv[0]), lv[1])
         if kind == "KImm":
@@ -85,6 +92,17 @@ class Impl:
                 dec = None
             return dict(bytes=list(raw2), dec=dec, oracle_ok=False, err="second-encoding-accepted-after-" + type(e).__name__)
         flav = self.t["flavours"][fname]["flavour"]
+        # a decoder must not carry anything over from a buffer it rejected: first offer the same
+        # commands followed by one command with an opcode the flavour does not know (rejected after
+        # the valid commands were read), to the module-level deserialize() and to the long-lived object
+        poisoned = self.poison(fname, raw)
+        if poisoned is not None:
+            for dec_fn in (lambda b: self.deserialize(b, flavour=flav),
+                           lambda b: self.persistent_deserializer(fname).deserialize_subroutine(b)):
+                try:
+                    dec_fn(poisoned)
+                except Exception:
+                    pass
         try:
             back = self.deserialize(raw, flavour=flav)
         except Exception as e:
@@ -101,6 +119,9 @@ class Impl:
         dec = (back.netqasm_version[0], back.netqasm_version[1], back.app_id,
                [self.view_instr(i) for i in back.instructions])
         ok = (list(back.instructions) == instrs and tuple(back.netqasm_version) == (v0, v1) and back.app_id == app)
+        if not ok and poisoned is not None:
+            return dict(bytes=list(raw), dec=dec, oracle_ok=False,
+                        err="decoded right after a rejected buffer (the same commands followed by an unknown opcode) was offered to the decoder")
         if ok:
             # a decoded subroutine belongs to its caller: changing it in place (as the NV transpiler
             # and the SDK do) must not change what the same bytes decode to afterwards
@@ -109,6 +130,14 @@ class Impl:
                 return dict(bytes=list(raw), dec=again, oracle_ok=False,
                             err="second decoding of the same bytes differs after the first result was modified in place")
         return dict(bytes=list(raw), dec=dec, oracle_ok=ok, err=None)
+
+    def poison(self, fname, raw):
+        """raw + one command whose opcode the flavour does not know (None if every opcode is taken)."""
+        used = {r["id"] for r in self.t["flavours"][fname]["rows"]}
+        free = [i for i in range(255, -1, -1) if i not in used]
+        if not free:
+            return None
+        return bytes(raw) + bytes([free[0]] + [0] * (self.t["command_bytes"] - 1))
 
     def scramble(self, obj, depth=0, seen=None):
         """Change every integer / enum leaf of a decoded instruction IN PLACE (best effort): mutable
@@ -185,7 +214,11 @@ class Impl:
         rows = self.rows[fname]
         instrs = [self.build_instr(rows[n], lv) for n, lv in body]
         sub = self.Subroutine(instructions=instrs, netqasm_version=(v0, v1), app_id=app)
-        first = bytes(sub)
+        try:
+            first = bytes(sub)
+        except Exception as e:  # the implementation refuses what its own layout calls in range
+            return dict(final_body=[(n, list(lv)) for n, lv in body], final_app=app, bytes_obj=None, bytes_fresh=None,
+                        dec=None, err="first serialisation: " + type(e).__name__ + ": " + str(e)[:120], first=None)
         str(sub)  # printing is another reader of the object
         final = [(n, list(lv)) for n, lv in body]
         ndebug = 0
